@@ -8,7 +8,8 @@ from .. import core, check, epflow, epcheck, gen, oracles
 from .c10 import line_of
 
 THEOREMS = ["C15_no_demand", "C15_k_independent", "C15_area_independent", "C15_zero_demand", "C15_no_dhw_use", "C15_nearby_supply_closed_form", "C15_solar_boiler", "C15_direct_electric_closed_form",
-            "C15_without_biomass", "C15_heat_pump", "C15_biomass_nearby", "C15_biomass_mixed", "C15_biomass_mixed_without_output"]
+            "C15_without_biomass", "C15_heat_pump", "C15_biomass_nearby", "C15_biomass_mixed", "C15_biomass_mixed_without_output",
+            "C15_two_biomasses", "C15_two_biomasses_without_output"]
 
 FR = {  # ren/(ren+nren) of the regulatory supply factors (all locations share them)
     "EAMBIENTE": Fraction(1), "TERMOSOLAR": Fraction(1),
